@@ -292,6 +292,47 @@ func init() {
 		Variant{Name: "label slice copied before the direction is appended", Property: "C20", File: "proxy/admin_stream_transfer.go", Benign: true,
 			Old: "\t\t\tf.logger.Debug(\"sourceStreamClient.Recv encountered EOF\", tag.Error(err))\n\t\t\tmetrics.AdminServiceStreamTerminatedCount.WithLabelValues(append(f.metricLabelValues, \"source\")...).Inc()\n", New: "\t\t\tf.logger.Debug(\"sourceStreamClient.Recv encountered EOF\", tag.Error(err))\n\t\t\tterminated := metrics.AdminServiceStreamTerminatedCount\n\t\t\tterminated.WithLabelValues(append(append([]string{}, f.metricLabelValues...), \"source\")...).Inc()\n"},
 	)
+	// ---- round 10
+	addVariants(
+		Variant{Name: "delivery channel looked up once, before the retry loop", Property: "C08", File: "proxy/intra_proxy_router.go",
+			Old: "\t\t\tsent := false\n\t\t\tlogged := false\n\t\t\tfor !sent {\n\t\t\t\tif ch, ok := r.shardManager.GetRemoteSendChan(r.targetShardID); ok {\n", New: "\t\t\tsent := false\n\t\t\tlogged := false\n\t\t\tch, ok := r.shardManager.GetRemoteSendChan(r.targetShardID)\n\t\t\tfor !sent {\n\t\t\t\tif ok {\n", Expect: "O8.18"},
+		Variant{Name: "delivery channel lookup split from its test", Property: "C08", File: "proxy/intra_proxy_router.go", Benign: true,
+			Old: "\t\t\tsent := false\n\t\t\tlogged := false\n\t\t\tfor !sent {\n\t\t\t\tif ch, ok := r.shardManager.GetRemoteSendChan(r.targetShardID); ok {\n", New: "\t\t\tsent := false\n\t\t\tlogged := false\n\t\t\tfor !sent {\n\t\t\t\tch, ok := r.shardManager.GetRemoteSendChan(r.targetShardID)\n\t\t\t\tif ok {\n"},
+		Variant{Name: "remembered ack level written without the sender's mutex", Property: "C01", File: "proxy/proxy_streams.go",
+			Old: "\t\t\t\t\t\t\ts.mu.Lock()\n\t\t\t\t\t\t\ts.prevAckBySource[srcShard] = originalAck\n\t\t\t\t\t\t\ts.mu.Unlock()\n", New: "\t\t\t\t\t\t\ts.prevAckBySource[srcShard] = originalAck\n", Expect: "O1.15"},
+		Variant{Name: "remembered ack level stored through a local", Property: "C01", File: "proxy/proxy_streams.go", Benign: true,
+			Old: "\t\t\t\t\t\t\ts.mu.Lock()\n\t\t\t\t\t\t\ts.prevAckBySource[srcShard] = originalAck\n\t\t\t\t\t\t\ts.mu.Unlock()\n", New: "\t\t\t\t\t\t\tlevel := originalAck\n\t\t\t\t\t\t\ts.mu.Lock()\n\t\t\t\t\t\t\ts.prevAckBySource[srcShard] = level\n\t\t\t\t\t\t\ts.mu.Unlock()\n"},
+		Variant{Name: "remembered ack level is the proxy watermark, not the translated one", Property: "C01", File: "proxy/proxy_streams.go",
+			Old: "\t\t\t\t\t\t\ts.mu.Lock()\n\t\t\t\t\t\t\ts.prevAckBySource[srcShard] = originalAck\n\t\t\t\t\t\t\ts.mu.Unlock()\n", New: "\t\t\t\t\t\t\ts.mu.Lock()\n\t\t\t\t\t\t\ts.prevAckBySource[srcShard] = proxyAckWatermark\n\t\t\t\t\t\t\ts.mu.Unlock()\n", Expect: "O1.15"},
+		Variant{Name: "ack watermark read from the high-priority lane", Property: "C04", File: "proxy/proxy_streams.go",
+			Old: "\t\t\tproxyAckWatermark := attr.SyncReplicationState.InclusiveLowWatermark\n", New: "\t\t\tproxyAckWatermark := attr.SyncReplicationState.GetHighPriorityState().GetInclusiveLowWatermark()\n", Expect: "O4.17"},
+		Variant{Name: "ack watermark read through the getter", Property: "C04", File: "proxy/proxy_streams.go", Benign: true,
+			Old: "\t\t\tproxyAckWatermark := attr.SyncReplicationState.InclusiveLowWatermark\n", New: "\t\t\tproxyAckWatermark := attr.SyncReplicationState.GetInclusiveLowWatermark()\n"},
+		Variant{Name: "Append ignores a proxy id it has already seen", Property: "C05", File: "proxy/proxy_streams.go",
+			Old: "\tb.ensureCapacity()\n\tif b.size == 0 {\n\t\tb.startProxyID = proxyID\n\t} else {\n", New: "\tif b.size > 0 && proxyID < b.startProxyID+int64(b.size) {\n\t\treturn\n\t}\n\tb.ensureCapacity()\n\tif b.size == 0 {\n\t\tb.startProxyID = proxyID\n\t} else {\n", Expect: "O5.10"},
+		Variant{Name: "Append reads the tail slot for a debug log", Property: "C05", File: "proxy/proxy_streams.go", Benign: true,
+			Old: "\tb.ensureCapacity()\n\tif b.size == 0 {\n\t\tb.startProxyID = proxyID\n\t} else {\n", New: "\tif b.size > 0 {\n\t\ttail := b.entries[(b.head+b.size-1)%len(b.entries)]\n\t\t_ = tail.sourceTask\n\t}\n\tb.ensureCapacity()\n\tif b.size == 0 {\n\t\tb.startProxyID = proxyID\n\t} else {\n"},
+		Variant{Name: "tail slot read without the emptiness test", Property: "C05", File: "proxy/proxy_streams.go",
+			Old: "\tb.ensureCapacity()\n\tif b.size == 0 {\n\t\tb.startProxyID = proxyID\n\t} else {\n", New: "\ttail := b.entries[(b.head+b.size-1)%len(b.entries)]\n\t_ = tail.sourceTask\n\tb.ensureCapacity()\n\tif b.size == 0 {\n\t\tb.startProxyID = proxyID\n\t} else {\n", Expect: "O5.1"},
+		Variant{Name: "responses without a top-level namespace skip the walk", Property: "C12", File: "interceptor/translator.go",
+			Old: "func (n *translatorImpl) TranslateResponse(resp any) (bool, error) {\n\treturn n.visitor(n.logger, resp, n.matchResp)\n}", New: "func (n *translatorImpl) TranslateResponse(resp any) (bool, error) {\n\tif r, ok := resp.(interface{ GetNamespace() string }); ok && r.GetNamespace() == \"\" {\n\t\treturn false, nil\n\t}\n\treturn n.visitor(n.logger, resp, n.matchResp)\n}", Expect: "O12.12"},
+		Variant{Name: "visitor result passed on through locals", Property: "C12", File: "interceptor/translator.go", Benign: true,
+			Old: "func (n *translatorImpl) TranslateResponse(resp any) (bool, error) {\n\treturn n.visitor(n.logger, resp, n.matchResp)\n}", New: "func (n *translatorImpl) TranslateResponse(resp any) (bool, error) {\n\tchanged, err := n.visitor(n.logger, resp, n.matchResp)\n\tif err != nil {\n\t\treturn changed, err\n\t}\n\treturn changed, nil\n}"},
+		Variant{Name: "search-attribute requests are walked only when a mapping exists", Property: "C14", File: "interceptor/search_attribute_translator.go",
+			Old: "func (s *saTranslator) TranslateRequest(req any) (bool, error) {\n\treturn visitSearchAttributes(s.logger, req, s.getNamespaceReqMatcher(\"\"))\n}", New: "func (s *saTranslator) TranslateRequest(req any) (bool, error) {\n\tif len(s.reqMap) == 0 {\n\t\treturn false, nil\n\t}\n\treturn visitSearchAttributes(s.logger, req, s.getNamespaceReqMatcher(\"\"))\n}", Expect: "O14.12"},
+		Variant{Name: "request reset when a translator fails", Property: "C13", File: "interceptor/translation_interceptor.go",
+			Old: "\t\t\tchanged, trErr := tr.TranslateRequest(req)\n\t\t\tlogTranslateResult(tr, i.logger, changed, trErr, methodName+\"Request\", req, time.Since(start))\n", New: "\t\t\tchanged, trErr := tr.TranslateRequest(req)\n\t\t\tlogTranslateResult(tr, i.logger, changed, trErr, methodName+\"Request\", req, time.Since(start))\n\t\t\tif m, isM := req.(interface{ Reset() }); isM && trErr != nil {\n\t\t\t\tm.Reset()\n\t\t\t}\n", Expect: "O13.11"},
+		Variant{Name: "empty CA path yields no pool and no error", Property: "C19", File: "encryption/tls.go",
+			Old: "\tif strings.HasPrefix(pathOrUrl, \"http://\") {\n\t\treturn nil, errors.New(\"HTTP is not supported for CA cert URLs. Provide HTTPS URL\")\n\t}\n", New: "\tif pathOrUrl == \"\" {\n\t\treturn nil, nil\n\t}\n\tif strings.HasPrefix(pathOrUrl, \"http://\") {\n\t\treturn nil, errors.New(\"HTTP is not supported for CA cert URLs. Provide HTTPS URL\")\n\t}\n", Expect: "O19.10"},
+		Variant{Name: "empty CA path refused with its own message", Property: "C19", File: "encryption/tls.go", Benign: true,
+			Old: "\tif strings.HasPrefix(pathOrUrl, \"http://\") {\n\t\treturn nil, errors.New(\"HTTP is not supported for CA cert URLs. Provide HTTPS URL\")\n\t}\n", New: "\tif pathOrUrl == \"\" {\n\t\treturn nil, errors.New(\"no CA certificate configured\")\n\t}\n\tif strings.HasPrefix(pathOrUrl, \"http://\") {\n\t\treturn nil, errors.New(\"HTTP is not supported for CA cert URLs. Provide HTTPS URL\")\n\t}\n"},
+	)
+	addVariants(
+		Variant{Name: "Send to the initiator moved into a forwarder method", Property: "C06", File: "proxy/admin_stream_transfer.go", Benign: true,
+			Old: "\t\t\tif err = f.targetStreamServer.Send(resp); err != nil {\n\t\t\t\tif err != io.EOF {\n\t\t\t\t\tf.logger.Error(\"targetStreamServer.Send encountered error\", tag.Error(err))\n\t\t\t\t} else {\n\t\t\t\t\tf.logger.Debug(\"targetStreamServer.Send encountered EOF\", tag.Error(err))\n\t\t\t\t\tmetrics.AdminServiceStreamTerminatedCount.WithLabelValues(append(f.metricLabelValues, \"target\")...).Inc()\n\t\t\t\t}\n\t\t\t\treturn\n\t\t\t}\n\t\t\tmetrics.AdminServiceStreamReqCount.WithLabelValues(f.metricLabelValues...).Inc()\n\t\tdefault:\n\t\t\tf.logger.Error(\"sourceStreamClient.Recv encountered error\", tag.Error(serviceerror.NewInternal(fmt.Sprintf(\n\t\t\t\t\"StreamWorkflowReplicationMessages encountered unknown type: %T %v\", attr, attr,\n\t\t\t))))\n\t\t\treturn\n\t\t}\n\t}\n}\n\nfunc (f *StreamForwarder) forwardAcks(wg *sync.WaitGroup) {\n", New: "\t\t\tif err = f.sendToTarget(resp); err != nil {\n\t\t\t\tif err != io.EOF {\n\t\t\t\t\tf.logger.Error(\"targetStreamServer.Send encountered error\", tag.Error(err))\n\t\t\t\t} else {\n\t\t\t\t\tf.logger.Debug(\"targetStreamServer.Send encountered EOF\", tag.Error(err))\n\t\t\t\t\tmetrics.AdminServiceStreamTerminatedCount.WithLabelValues(append(f.metricLabelValues, \"target\")...).Inc()\n\t\t\t\t}\n\t\t\t\treturn\n\t\t\t}\n\t\t\tmetrics.AdminServiceStreamReqCount.WithLabelValues(f.metricLabelValues...).Inc()\n\t\tdefault:\n\t\t\tf.logger.Error(\"sourceStreamClient.Recv encountered error\", tag.Error(serviceerror.NewInternal(fmt.Sprintf(\n\t\t\t\t\"StreamWorkflowReplicationMessages encountered unknown type: %T %v\", attr, attr,\n\t\t\t))))\n\t\t\treturn\n\t\t}\n\t}\n}\n\n// sendToTarget hands one batch to the initiator.\nfunc (f *StreamForwarder) sendToTarget(resp *adminservice.StreamWorkflowReplicationMessagesResponse) error {\n\treturn f.targetStreamServer.Send(resp)\n}\n\nfunc (f *StreamForwarder) forwardAcks(wg *sync.WaitGroup) {\n"},
+		Variant{Name: "Send to the initiator behind a process-wide semaphore", Property: "C06", File: "proxy/admin_stream_transfer.go",
+			Old: "\t\t\tif err = f.targetStreamServer.Send(resp); err != nil {\n\t\t\t\tif err != io.EOF {\n\t\t\t\t\tf.logger.Error(\"targetStreamServer.Send encountered error\", tag.Error(err))\n\t\t\t\t} else {\n\t\t\t\t\tf.logger.Debug(\"targetStreamServer.Send encountered EOF\", tag.Error(err))\n\t\t\t\t\tmetrics.AdminServiceStreamTerminatedCount.WithLabelValues(append(f.metricLabelValues, \"target\")...).Inc()\n\t\t\t\t}\n\t\t\t\treturn\n\t\t\t}\n\t\t\tmetrics.AdminServiceStreamReqCount.WithLabelValues(f.metricLabelValues...).Inc()\n\t\tdefault:\n\t\t\tf.logger.Error(\"sourceStreamClient.Recv encountered error\", tag.Error(serviceerror.NewInternal(fmt.Sprintf(\n\t\t\t\t\"StreamWorkflowReplicationMessages encountered unknown type: %T %v\", attr, attr,\n\t\t\t))))\n\t\t\treturn\n\t\t}\n\t}\n}\n\nfunc (f *StreamForwarder) forwardAcks(wg *sync.WaitGroup) {\n", New: "\t\t\tif err = f.sendToTarget(resp); err != nil {\n\t\t\t\tif err != io.EOF {\n\t\t\t\t\tf.logger.Error(\"targetStreamServer.Send encountered error\", tag.Error(err))\n\t\t\t\t} else {\n\t\t\t\t\tf.logger.Debug(\"targetStreamServer.Send encountered EOF\", tag.Error(err))\n\t\t\t\t\tmetrics.AdminServiceStreamTerminatedCount.WithLabelValues(append(f.metricLabelValues, \"target\")...).Inc()\n\t\t\t\t}\n\t\t\t\treturn\n\t\t\t}\n\t\t\tmetrics.AdminServiceStreamReqCount.WithLabelValues(f.metricLabelValues...).Inc()\n\t\tdefault:\n\t\t\tf.logger.Error(\"sourceStreamClient.Recv encountered error\", tag.Error(serviceerror.NewInternal(fmt.Sprintf(\n\t\t\t\t\"StreamWorkflowReplicationMessages encountered unknown type: %T %v\", attr, attr,\n\t\t\t))))\n\t\t\treturn\n\t\t}\n\t}\n}\n\nvar inFlight = make(chan struct{}, 64)\n\nfunc (f *StreamForwarder) sendToTarget(resp *adminservice.StreamWorkflowReplicationMessagesResponse) error {\n\tinFlight <- struct{}{}\n\tdefer func() { <-inFlight }()\n\treturn f.targetStreamServer.Send(resp)\n}\n\nfunc (f *StreamForwarder) forwardAcks(wg *sync.WaitGroup) {\n", Expect: "O6.17"},
+	)
 	// ---- C06
 	ast := "proxy/admin_stream_transfer.go"
 	addVariants(
